@@ -89,6 +89,3 @@ Qed.
 
 Lemma sweep_fixed_4 : sweep fixed true 4 init [] = true.
 Proof. vm_compute. reflexivity. Qed.
-
-Lemma sweep_shipped_4 : sweep shipped false 4 init [] = true.
-Proof. vm_compute. reflexivity. Qed.
